@@ -64,6 +64,15 @@ Proof.
   cbn. intros [H|[]]. congruence.
 Qed.
 
+(* in-place methods that keep the block memory (np.transpose views, iconj of real data, ireplace_label, isort_qdata):
+   the receiver gets a NEW _qdata table and new list objects, so again only the receiver changes *)
+Theorem T03_inplace_metadata : forall h r gt perm x,
+  wf h -> x < length (objs h) -> x <> r -> denote (fst (exec h (OMeta r gt perm))) x = denote h x.
+Proof.
+  intros h r gt perm x Hwf Hx Hne. apply frame_may_change; [exact Hwf|exact Hx|].
+  cbn. intros [H|[]]. congruence.
+Qed.
+
 (* iproject copies _qdata first and installs fresh legs and blocks: only the receiver changes *)
 Theorem T03_inplace_iproject : forall h r f gt newlegs x,
   wf h -> x < length (objs h) -> x <> r -> denote (fst (exec h (OProject r f gt newlegs))) x = denote h x.
@@ -122,6 +131,7 @@ Print Assumptions T03_frame_copy.
 Print Assumptions T03_inplace_iscale_prefactor.
 Print Assumptions T03_inplace_iadd_prefactor_other.
 Print Assumptions T03_inplace_itranspose.
+Print Assumptions T03_inplace_metadata.
 Print Assumptions T03_inplace_iproject.
 Print Assumptions T03_legs_immutable.
 Print Assumptions T03_deepcopy_independent.
